@@ -35,6 +35,8 @@ def LitsS : Stmt → Prop
   | .ite c t _ e => LitsE c ∧ LitsS t ∧ LitsS e
   | .loop i c p b => LitsS i ∧ LitsO c ∧ LitsS p ∧ LitsS b
   | .ret e => LitsO e
+  | .ret2 e1 e2 => LitsE e1 ∧ LitsE e2
+  | .define2 _ _ e => LitsE e
   | .block b => LitsS b
   | .labeled _ s => LitsS s
   | .switchS t _ cl => LitsO t ∧ LitsS cl
@@ -46,6 +48,7 @@ def LitsS : Stmt → Prop
     `break` / `continue` (the phantom local named after the label). -/
 def declBound : Stmt → Nat
   | .define _ _ | .varDecl _ _ _ | .brkL _ | .contL _ => 1
+  | .define2 _ _ _ => 2
   | .seq a b => declBound a + declBound b
   | .ite _ t _ e => declBound t + declBound e
   | .loop i _ p b => declBound i + declBound p + declBound b
@@ -119,6 +122,8 @@ theorem compS_cnt_le (cx : Ctx) : ∀ (s : Stmt) (lp : LoopCtx) (st : St), (comp
     have hp := ihp lp (forSt3 cx lp init cond body st)
     simp only [declBound, pop_cnt]; omega
   | ret e => intro lp st; cases e <;> simp [compS, declBound]
+  | ret2 e1 e2 => intro lp st; simp [compS, declBound]
+  | define2 x y e => intro lp st; simp [compS, declBound, newLocal_cnt]
   | brk => intro lp st; simp [compS, declBound]
   | cont => intro lp st; simp [compS, declBound]
   | block body ih =>
@@ -434,6 +439,24 @@ theorem compS_items_aux (cx : Ctx) (N A : Nat) : ∀ (s : Stmt),
     | some e =>
       simp only [compS] at hcnt ⊢
       exact ((dropItems_items hc.few3).append (compE_items cx st.scopes N A (slots_lt hwf hcnt) hc.args e .val st.nl hl)).snoc trivial
+  | ret2 e1 e2 =>
+    refine ⟨?_, fun lp k st h => by simp [ShapeCl] at h⟩
+    intro lp k st hal hc hwf hcnt hl
+    simp only [compS] at hcnt ⊢
+    exact (((dropItems_items hc.few3).append (compE_items cx st.scopes N A (slots_lt hwf hcnt) hc.args e2 .val st.nl hl.2)).append
+      (compE_items cx st.scopes N A (slots_lt hwf hcnt) hc.args e1 .val _ hl.1)).snoc trivial
+  | define2 x y e =>
+    refine ⟨?_, fun lp k st h => by simp [ShapeCl] at h⟩
+    intro lp k st hal hc hwf hcnt hl
+    simp only [compS] at hcnt ⊢
+    have hcn : st.cnt + 2 ≤ N := by simpa [newLocal_cnt] using hcnt
+    have hwy : Wf ({ st with nl := (compE cx st.scopes e .val st.nl).2 }.newLocal y) := wf_newLocal (wf_nl hwf _) y
+    have hcy : ({ st with nl := (compE cx st.scopes e .val st.nl).2 }.newLocal y).cnt ≤ N := by rw [newLocal_cnt]; simp; omega
+    refine (((compE_items cx st.scopes N A (slots_lt hwf (by omega)) hc.args e .val st.nl hl).append ?_).append
+      (storeVar_items (slots_lt hwy hcy) hc.args y)).append (storeVar_items (slots_lt (wf_newLocal hwy x) hcnt) hc.args x)
+    intro it hit; simp at hit; rcases hit with rfl | rfl
+    · exact lit_fits (n := 2) (by decide)
+    · trivial
   | brk =>
     refine ⟨?_, fun lp k st h => by simp [ShapeCl] at h⟩
     intro lp k st hal hc hwf hcnt hl
@@ -629,12 +652,12 @@ theorem allowed_shape : ∀ (s : Stmt) (ls : Sigs), Allowed ls s → Shape (swCo
   | .caseS _ _ _ _ _, _, h => by simp [Allowed] at h
   | .defaultS _, _, h => by simp [Allowed] at h
   | .skip, _, _ | .define _ _, _, _ | .assign _ _, _, _ | .opAssign _ _ _, _, _ | .inc _, _, _ | .dec _, _, _
-  | .varDecl _ _ _, _, _ | .exprStmt _, _, _ | .discard _, _, _ | .panicS _, _, _ | .ret _, _, _ | .brk, _, _ | .cont, _, _
+  | .varDecl _ _ _, _, _ | .exprStmt _, _, _ | .discard _, _, _ | .panicS _, _, _ | .ret _, _, _ | .ret2 _ _, _, _ | .define2 _ _ _, _, _ | .brk, _, _ | .cont, _, _
   | .brkL _, _, _ | .contL _, _, _ => trivial
   | .labeled _ .skip, _, h | .labeled _ (.seq _ _), _, h | .labeled _ (.define _ _), _, h | .labeled _ (.assign _ _), _, h
   | .labeled _ (.opAssign _ _ _), _, h | .labeled _ (.inc _), _, h | .labeled _ (.dec _), _, h | .labeled _ (.varDecl _ _ _), _, h
   | .labeled _ (.exprStmt _), _, h | .labeled _ (.discard _), _, h | .labeled _ (.panicS _), _, h | .labeled _ (.ite _ _ _ _), _, h
-  | .labeled _ (.ret _), _, h | .labeled _ .brk, _, h | .labeled _ .cont, _, h | .labeled _ (.block _), _, h
+  | .labeled _ (.ret _), _, h | .labeled _ (.ret2 _ _), _, h | .labeled _ (.define2 _ _ _), _, h | .labeled _ .brk, _, h | .labeled _ .cont, _, h | .labeled _ (.block _), _, h
   | .labeled _ (.labeled _ _), _, h | .labeled _ (.brkL _), _, h | .labeled _ (.contL _), _, h
   | .labeled _ (.caseS _ _ _ _ _), _, h | .labeled _ (.defaultS _), _, h => by simp [Allowed] at h
 theorem allowedCl_shape : ∀ (cl : Stmt) (ls : Sigs), AllowedCl ls cl → ShapeCl (swCount ls) cl
@@ -643,7 +666,7 @@ theorem allowedCl_shape : ∀ (cl : Stmt) (ls : Sigs), AllowedCl ls cl → Shape
   | .caseS _ _ b _ rest, ls, h => by simp only [AllowedCl] at h; exact ⟨allowed_shape b ls h.1, allowedCl_shape rest ls h.2.1⟩
   | .seq _ _, _, h | .define _ _, _, h | .assign _ _, _, h | .opAssign _ _ _, _, h | .inc _, _, h | .dec _, _, h
   | .varDecl _ _ _, _, h | .exprStmt _, _, h | .discard _, _, h | .panicS _, _, h | .ite _ _ _ _, _, h
-  | .loop _ _ _ _, _, h | .ret _, _, h | .brk, _, h | .cont, _, h | .block _, _, h | .labeled _ _, _, h
+  | .loop _ _ _ _, _, h | .ret _, _, h | .ret2 _ _, _, h | .define2 _ _ _, _, h | .brk, _, h | .cont, _, h | .block _, _, h | .labeled _ _, _, h
   | .brkL _, _, h | .contL _, _, h | .switchS _ _ _, _, h => by simp [AllowedCl] at h
 end
 
